@@ -1,9 +1,10 @@
 import DepsDev.Proofs.C03L3Npm
 
 /-!
-# C03 layer L3 for npm, operator `eq`: one comparator, prerelease candidates
+# C03 layer L3 for npm, operator `eq`: one comparator, prerelease candidates (operands without tag)
 
-See `C03L3Npm` for the statement (`L3Npm`) and the proof script.
+See `C03L3Npm` for the statements and the proof script; `C03L3NpmEqP` has the tagged operands
+and the assembled `L3Npm .eq`.
 -/
 namespace DepsDev.Proofs.C03
 
@@ -13,12 +14,6 @@ set_option linter.unusedSimpArgs false
 set_option linter.unusedVariables false
 
 theorem l3_full_eq : L3Full .eq := by l3_full
-theorem l3_pre_lt_eq : L3PreO .eq .lt := by l3_pre
-theorem l3_pre_eq_eq : L3PreO .eq .eq := by l3_pre
-theorem l3_pre_gt_eq : L3PreO .eq .gt := by l3_pre
 theorem l3_part_eq : L3Part .eq := by l3_part
-
-theorem l3_npm_eq : L3Npm .eq :=
-  l3_assemble _ l3_full_eq (l3_pre_assemble _ l3_pre_lt_eq l3_pre_eq_eq l3_pre_gt_eq) l3_part_eq
 
 end DepsDev.Proofs.C03
